@@ -111,6 +111,7 @@ func (fw *CPTVFileRecorder) StartRecording(background *cptvframe.Frame, tempThre
 	if err != nil {
 		return err
 	}
+	verifPoint("rec.start.created")
 	motionYAML := fmt.Sprintf("%striggeredthresh: %d\n", fw.motionYAML, tempThreshold)
 	fw.header.MotionConfig = motionYAML
 	fw.header.BackgroundFrame = background
@@ -120,6 +121,7 @@ func (fw *CPTVFileRecorder) StartRecording(background *cptvframe.Frame, tempThre
 	}
 	fw.header.BackgroundFrame = nil
 	fw.writer = writer
+	verifPoint("rec.start.header")
 	return nil
 }
 
@@ -128,9 +130,12 @@ func (fw *CPTVFileRecorder) StopRecording() error {
 		leptondController.SetAutoFFC(true)
 	}
 	if fw.writer != nil {
+		verifPoint("rec.stop.before")
 		fw.writer.Close()
+		verifPoint("rec.stop.closed")
 
 		finalName, err := renameTempRecording(fw.writer.Name())
+		verifPoint("rec.stop.renamed")
 		if fw.constantRecorder {
 			log.Printf("constant recording stopped: %s", finalName)
 		} else {
@@ -145,13 +150,18 @@ func (fw *CPTVFileRecorder) StopRecording() error {
 
 func (fw *CPTVFileRecorder) Stop() {
 	if fw.writer != nil {
+		verifPoint("rec.abort.before")
 		fw.writer.Close()
+		verifPoint("rec.abort.closed")
 		os.Remove(fw.writer.Name())
+		verifPoint("rec.abort.removed")
 		fw.writer = nil
 	}
 }
 
 func (fw *CPTVFileRecorder) WriteFrame(frame *cptvframe.Frame) error {
+	verifPoint("rec.write.before")
+	defer verifPoint("rec.write.after")
 	return fw.writer.WriteFrame(frame)
 }
 
